@@ -27,11 +27,34 @@ def cc76_task(u, tt, pol):
                 reach=[("upper bound widened to a stop point", "!hi_inf(&x) && hi(&x) != hi(&G_to0)"), ("upper bound widened to infinity", "hi_inf(&x) && !hi_inf(&G_to0)"),
                        ("lower bound widened to a stop point", "!lo_inf(&x) && lo(&x) != lo(&G_to0)"), ("stationary", "set_eq(&x, &y)")])
 
+def box_tasks(tier):
+    """Box<ITV>::CC76_widening_assign(y, tp) on the box unit of check C03 (dimension <= 2)"""
+    import C03
+    units = []; T = []
+    for (tt, pol) in ([("s8", "nat"), ("s8", "rat")] if tier == "quick" else [(t, p) for t in ("s8", "s32") for p in ("nat", "rat")]):
+        u = C03.box_unit(tt, pol, prop="C08"); units.append(u)
+        for d in (1, 2):
+            bound = {"unwind": max(d + 2, 5), "note": "space dimension %d; interval bounds, special/open bits, status flags, token count and ghost point arbitrary; the function's own 5-entry stop-point table (contents only assumed sorted); loops unwound with unwinding assertions" % d}
+            kw = dict(bounded=bound, timeout=2400, object_bits=9, defs={"BOX_D": d, "GHOST_RANGE": "((ex_t)%d)" % (1 << (u.defs["T_W"] + 1))}, split_post=True,
+                      stubs=["c12_ghost.c", "c17_ghost.c", "c03_box.c"], group="box %s %s" % (tt, pol))
+            pre = C03.BOX_SETUP + "\n  G_fy0 = fy; G_tokens = tok; G_tokens0 = tok; G_plain_changed = 0;\n  __CPROVER_assume(box_contains_sets());"
+            T.append(Task("box/%s/%s/CC76_widening_assign/plain/dim%d" % (tt, pol, d), u, "FN_b_cc76", ["C08/box_widen.h"], C03.box_vars() + [Var("uint32_t", "tok"), Var("_Bool", "with_tp")],
+                          "__CPROVER_assume(!with_tp || tok == 0); FN_b_cc76(&G_bx, &G_by, with_tp ? &G_tokens : (uint32_t *)0)", harness_pre=pre,
+                          reach=[("widened", "!box_same_as_entry(&G_bx)"), ("stationary", "!G_emptyY0 && ALLK(set_eq(&G_xs[0], &G_ys[0]), set_eq(&G_xs[1], &G_ys[1]))"),
+                                 ("zero tokens", "with_tp")], **kw))
+            two = ("FN_b_cc76(&G_bx, &G_by, (uint32_t *)0);\n  G_plain_changed = !box_same_as_entry(&G_bx);\n"
+                   "  G_xs[0] = G_xs0[0]; G_xs[1] = G_xs0[1]; BOX_FLAGS(&G_bx) = G_fx0; G_ys[0] = ys0; G_ys[1] = ys1; BOX_FLAGS(&G_by) = G_fy0;\n"
+                   "  __CPROVER_assume(tok > 0);\n  w_b_cc76(&G_bx, &G_by, &G_tokens)")
+            T.append(Task("box/%s/%s/CC76_widening_assign/tokens/dim%d" % (tt, pol, d), u, "w_b_cc76", ["C08/box_widen.h"], C03.box_vars() + [Var("uint32_t", "tok")],
+                          two, harness_pre=pre, reach=[("token consumed", "G_tokens == G_tokens0 - 1"), ("token kept", "G_tokens == G_tokens0")], **kw))
+    return units, T
+
 def build(tier):
     units = []; tasks = []
     combos = [("s8", "nat"), ("s8", "rat")] if tier == "quick" else [(t, p) for t in ("s8", "s16", "s32", "s64", "u8") for p in ("nat", "rat")]
     for (tt, pol) in combos:
         u = unit_for(tt, pol); units.append(u); tasks.append(cc76_task(u, tt, pol))
+    bu, bt = box_tasks(tier); units += bu; tasks += bt
     return units, tasks
 
 def main(tier, only=None):
